@@ -104,3 +104,12 @@ plan("C19", [("lifecycle", 4, 30), ("valset", 3, 20), ("slash", 3, 20), ("keys",
           "inspecting the call stack); the scenario is re-executed once per call site with an error injected at exactly that call (all call sites of the block = exhaustive "
           "for that block); oracle: block does not fail, at most one consumer's result differs from the fault-free run, that consumer's keys equal its pre-block keys up to "
           "the documented fallback, every other consumer equals the fault-free result; distinct = (scenario, call, position of the affected consumer)")
+
+plan("C11", [("lifecycle", 10, 70), ("slash", 6, 40)],
+     minobs={"stops": 20, "removals": 15, "stopped-consumer-blocks": 300},
+     rule="for every consumer observed in phase stopped: removal time = stop time + unbonding in force; in every block while stopped no validator set or queued "
+          "packet of it changes in EndBlock and nothing is sent on its channel; the retained protocol state (client/channel binding, genesis, validator set, opt-ins, "
+          "lists, commission rates, queued packets, ...) is compared key by key with its value at the stop until the removal time; removal not before the deadline and "
+          "in the first block at/after it; after removal every protocol-state prefix is gone, the channel is CLOSED and only descriptive records remain; "
+          "stops by owner, by timed-out packets (starved relayer, several in flight) and by send failure after the consumer closed its channel end; "
+          "distinct = (cause, repeated stops, removal offset class)")
